@@ -615,7 +615,12 @@ type SourcePortSetCriterion portset.PortSet
 
 // Meet implements the Criterion Meet method.
 func (c *SourcePortSetCriterion) Meet(ctx context.Context, network protocol, requestInfo RequestInfo) (bool, error) {
-	return (*portset.PortSet)(c).Contains(requestInfo.SourceAddrPort.Port()), nil
+	port := requestInfo.SourceAddrPort.Port()
+	if port == 0 {
+		// Port 0 is never in a port set, and [portset.PortSet.Contains] panics on it.
+		return false, nil
+	}
+	return (*portset.PortSet)(c).Contains(port), nil
 }
 
 // SourceIPCriterion restricts the source IP address.
@@ -659,7 +664,12 @@ type DestPortSetCriterion portset.PortSet
 
 // Meet implements the Criterion Meet method.
 func (c *DestPortSetCriterion) Meet(ctx context.Context, network protocol, requestInfo RequestInfo) (bool, error) {
-	return (*portset.PortSet)(c).Contains(requestInfo.TargetAddr.Port()), nil
+	port := requestInfo.TargetAddr.Port()
+	if port == 0 {
+		// Port 0 is never in a port set, and [portset.PortSet.Contains] panics on it.
+		return false, nil
+	}
+	return (*portset.PortSet)(c).Contains(port), nil
 }
 
 // DestDomainCriterion restricts the destination domain.
